@@ -38,7 +38,7 @@ ASSUMPTIONS = ['order is a sequence of non-negative integers (negative axes are 
 TOL = 1e-9
 
 SLOTS = ['_eigvals', '_eigvecs', '_propagators', '_total_propagator', '_omega', '_total_phases', '_filter_function',
-         '_total_propagator_liouville', '_control_matrix']
+         '_total_propagator_liouville', '_control_matrix', '_t']
 
 HEADER = ("From Coq Require Import ZArith List String.\n"
           "From FF Require Import Base.Ops Spec.DigitPerm Model.Remap Corr.RemapObs.\n"
@@ -403,8 +403,8 @@ def cases(ctx, r, thorough):
             out.append((inp, list(perms[int(r.integers(0, len(perms)))]), keep, None))
     if thorough:
         inp = make_input(r, 2, basis_kind='pauli', mapkind='reorder', noise='nontraceless')
-        for bits in range(2 ** len(SLOTS)):
-            out.append((inp, [1, 0], [s for k, s in enumerate(SLOTS) if bits >> k & 1], None))
+        for bits in range(2 ** 9):
+            out.append((inp, [1, 0], [s for k, s in enumerate(SLOTS[:9]) if bits >> k & 1] + (['_t'] if bits % 3 else []), None))
     # invalid orders: the model must raise exactly when the implementation does
     for bad_order in ([0, 0], [0], [0, 1, 2], [0, 2]):
         out.append((make_input(r, 2, basis_kind='pauli'), bad_order, None, 'ff'))
